@@ -56,6 +56,11 @@ LEVEL_TEXT += (
     "predicates are invariant under translation and unit "
     "(skv/invariance.py); facet midpoints are computed exactly "
     "(skv/nlite) on every reference cell's facet table (padded facets).")
+LEVEL_TEXT += (
+    " Added in the third round (review of the fix commits, DESIGN.md "
+    "9.6): "
+    "the tolerance of the default side tags is not derived from "
+    "params() (longest cell edge).")
 LEVEL_NOTE = ("Trusted: numpy unique/concatenate/intersect1d/union1d/"
               "setdiff1d semantics; connectivity tables are coherent (C11).")
 EXPLANATION = "Provenance-tagged symbolic runs of the DOF query code."
